@@ -492,12 +492,12 @@ PROP = Prop(
           "query. Non-trivial = rank>=2 or size-0 axis (direct); >=5 executed steps with a repeated "
           "query after a different one (history)."),
     clauses=[
-        Clause("vectorised", check_vectorised, strategy=_vec_cases(), quick=250, thorough=1200,
+        Clause("vectorised", check_vectorised, strategy=_vec_cases(), quick=250, thorough=4800,
                quick_shards=3, min_nontrivial=50, doc="shapes, elementwise = scalar, scalars, aliases"),
         Clause("pointwise_shape", check_pointwise_shape, strategy=_pw_cases(), quick=300,
-               thorough=1500, shards=4, min_nontrivial=50, doc="pointwise_cm shape incl. size-0 axes"),
+               thorough=6000, shards=4, min_nontrivial=50, doc="pointwise_cm shape incl. size-0 axes"),
         Clause("history", check_history, kind="machine", machine=make_machine, quick=80,
-               thorough=400, quick_shards=4, steps=30, min_nontrivial=30,
+               thorough=1600, quick_shards=4, steps=30, min_nontrivial=30,
                doc="call histories: no mutation, repeatable, equal to fresh clone"),
     ],
     assumptions=["basic counts (tp() etc.) are only required to have shape (); the property speaks "
